@@ -104,7 +104,7 @@ def judge(info: Dict[str, Any], ops: List[Dict[str, Any]]) -> Tuple[Verdicts, Di
     fifo: List[int] = list(info.get("fifo", []))
     isr = info.get("isr")
     irq_enabled = info.get("irq_enabled")
-    stale_latch_possible = False  # ISR bit 2 was cleared without the RETI-equivalent latch clear
+    latched = bool(info.get("latched", False))  # TimerContext.key_irq_latched (pub field) as last observed
 
     keys: Dict[int, KeyHist] = {}
     V = Verdicts()
@@ -463,13 +463,9 @@ def judge(info: Dict[str, Any], ops: List[Dict[str, Any]]) -> Tuple[Verdicts, Di
         if op.get("isr") is not None:
             new_isr = int(op["isr"])
             en = op.get("irq_enabled", irq_enabled)
-            if verb == "iclr":
-                stale_latch_possible = True
-            elif verb == "ack":
-                stale_latch_possible = False
             if isr is not None and (new_isr & 4) and not (int(isr) & 4):
                 facts["keyi_rises"] += 1
-                sfx = " [ISR bit 2 had been cleared without the RETI latch clear]" if stale_latch_possible else ""
+                sfx = " [timer key latch was still set from an earlier event]" if latched else ""
                 if not en:
                     V.add("keyi", verb, "KEYI raised while keyboard interrupts are disabled" + sfx, idx,
                           f"isr {int(isr):#04x}->{new_isr:#04x} fifo={fifo}")
@@ -478,6 +474,7 @@ def judge(info: Dict[str, Any], ops: List[Dict[str, Any]]) -> Tuple[Verdicts, Di
                           f"isr {int(isr):#04x}->{new_isr:#04x} fifo=[]")
             isr = new_isr
             irq_enabled = en
+            latched = bool(op.get("latched", False))
 
     facts["keys"] = len(keys)
     return V, facts
